@@ -394,11 +394,18 @@ def run(out, drv, info):
                               f'chunk object {ch["j"]} at the location of chunk {ch["i"]}: restore → {ch["real"]}', {'kind': 'tagged', 'seed': out.seed, 'idx': tg['idx'], 'tier': out.tier})
 
 
+def _in_child(fn, arg):
+    """run a worker in a forked child: an aborted restore leaves replicat's loader threads blocked for ever, which would hang the
+    interpreter of the calling process at exit"""
+    with mp.get_context('fork').Pool(1) as pool:
+        return pool.apply(fn, (arg,))
+
+
 def replay(path, drv):
     d = json.load(open(path))
     rp = d.get('replay', d)
     if rp.get('kind') == 'repo':
-        res = w_repo((rp['seed'], rp['idx'], rp.get('tier', 'quick')))
+        res = _in_child(w_repo, (rp['seed'], rp['idx'], rp.get('tier', 'quick')))
         print('cfg', res['cfg'], 'cases', len(res['cases']))
         for v in res['violations']:
             print('violation', v[0], v[1])
@@ -411,7 +418,7 @@ def replay(path, drv):
                     print('disagreement', ci, case['ops'], b)
         return 1 if (res['violations'] or bad) else 0
     if rp.get('kind') == 'tagged':
-        res = w_tagged((rp['seed'], rp['idx'], rp.get('tier', 'quick')))
+        res = _in_child(w_tagged, (rp['seed'], rp['idx'], rp.get('tier', 'quick')))
         for ch in res['checks']:
             print(ch['i'], ch['j'], ch['real'], ch['key_used'])
         return 0
